@@ -209,7 +209,27 @@ def presentations(rng, sig, bound, extras, n):
     kmax = 0
     while kmax < len(pos_names) and pos_names[kmax] in bound:
         kmax += 1
-    seen, out = set(), []
+    seen, out, total = set(), [], n
+    if kmax >= 2 and rng.random() < 0.5:
+        # keyword partials first, the final call passes the *remaining* parameters by position (they skip the
+        # parameters a partial has bound by name)
+        cand = pos_names[:kmax]
+        K = [n_ for n_ in cand if rng.random() < 0.5] or [cand[0]]
+        if len(K) == len(cand):
+            K = K[:-1]
+        R = [n_ for n_ in cand if n_ not in K]
+        Rp = R[:rng.randint(1, len(R))]
+        steps = rng.choice([1, 1, 2])
+        kwsteps = [[] for _ in range(steps + 1)]
+        for name in K:
+            kwsteps[rng.randrange(steps)].append(name)
+        rest = [n_ for n_ in bound if n_ not in K and n_ not in Rp] + list(extras)
+        rng.shuffle(rest)
+        for name in rest:
+            kwsteps[rng.randrange(steps + 1)].append(name)
+        out.append({"chunks": [[] for _ in range(steps)] + [Rp], "kwsteps": kwsteps, "ctx_pos": rng.randint(0, steps),
+                    "shuffle_seed": rng.randrange(1 << 30)})
+        seen.add((tuple(map(tuple, out[0]["chunks"])), tuple(map(tuple, kwsteps)), out[0]["ctx_pos"]))
     for _ in range(n * 3):
         k = rng.randint(0, kmax)
         positional = pos_names[:k]
@@ -230,7 +250,7 @@ def presentations(rng, sig, bound, extras, n):
             continue
         seen.add(key)
         out.append({"chunks": chunks, "kwsteps": kwsteps, "ctx_pos": ctx_pos, "shuffle_seed": rng.randrange(1 << 30)})
-        if len(out) == n:
+        if len(out) == total:
             break
     return out
 
